@@ -146,3 +146,95 @@ def run(ctx):  # noqa: F811
     _run_core(ctx)
     if not os.environ.get("VERIF_REPLAY"):
         gp_nominal_pairs(ctx)
+
+
+# ---- accessors: state_at(scaled=True) and state_at() of the same point differ exactly by the nominal ------------
+def accessor_scaling(ctx):
+    import casadi as ca
+    import numpy as np
+    from .. import problems
+    rng = ctx.rng
+    for _ in range(ctx.n(12, 300)):
+        s = tr.gen_spec(rng, {"history": False, "own_grid": False})
+        coll = s["states"] + s["algebraics"] + s["controls"]
+        if not coll:
+            continue
+        for v in coll:
+            s.setdefault("nominals", {})[v] = str(rng.choice([2, 10, Fraction(1, 4), 100]))
+        times = [Fraction(t) for t in s["times"]]
+        try:
+            p = problems.make_base(s)()
+            p.transcribe()
+        except Exception:  # noqa: BLE001
+            continue
+        nx = p.solver_input.shape[0]
+        X = ca.DM([float(Fraction(rng.randint(-12, 12), 4)) for _ in range(nx)])
+        ctx.case_done(core.fingerprint(["accessor-scaling", len(coll), len(times)]), True)
+        ctx.count("accessor_scaling_cases")
+        for _ in range(6):
+            v = rng.choice(coll)
+            m = rng.randrange(s["ensemble_size"])
+            t = float(rng.choice(times + [times[0] + (times[1] - times[0]) / 3]))
+            order = rng.random() < 0.5
+            calls = [(True,), (False,)] if order else [(False,), (True,)]
+            vals = {}
+            for (sc,) in calls:          # the order of the two calls must not matter
+                e = p.state_at(v, t, m, scaled=sc)
+                vals[sc] = float(ca.Function("f", [p.solver_input], [e])(X))
+            nom = float(Fraction(s["nominals"][v]))
+            if abs(vals[False] - nom * vals[True]) > 1e-9 * (1 + abs(vals[False])):
+                ctx.violation("nominals/accessor-scaling", {"spec": s, "variable": v, "time": t, "member": m, "scaled_first": order,
+                                                            "scaled": vals[True], "physical": vals[False], "nominal": nom},
+                              what="state_at(%s, %s) = %r but scaled=True gives %r with nominal %s (called %s first)" % (
+                                  v, t, vals[False], vals[True], nom, "scaled" if order else "physical"))
+                break
+
+
+def sim_nominal_cases(ctx):
+    """simulation variables are read and written in physical units: a user variable with its own nominal next to
+    a delay buffer of several steps, set_var / get_var round trips"""
+    from concurrent.futures import ProcessPoolExecutor
+    from . import c09
+    rng = ctx.rng
+    specs = []
+    for k in range(ctx.n(4, 80)):
+        m = c09.gen_model(rng, 2000 + k)
+        m["extra_nominal"] = str(rng.choice([50, 10, Fraction(1, 4)]))
+        if not m["delays"]:
+            m.pop("multiples", None)
+            src = rng.choice(m["states"] + m["algebraics"])["name"]
+            m["algebraics"].append({"name": "dly0"})
+            m["delays"].append(["dly0", ["v", src], str(rng.choice([2, 3, Fraction(5, 2)]) * m["dt"])])
+            for u in m["series"]:
+                m["series"][u] = m["series"][u][: m["nsteps"] + 1]
+                while len(m["series"][u]) < m["nsteps"] + 1:
+                    m["series"][u].append("1")
+        specs.append(m)
+    with ProcessPoolExecutor(max_workers=8) as ex:
+        results = list(ex.map(c09.safe_run, specs))
+    for spec, res in zip(specs, results):
+        ctx.case_done(core.fingerprint(["sim-nominal", spec["extra_nominal"], [d[2] for d in spec["delays"]]]), True)
+        ctx.count("sim_nominal_models")
+        if "error" in res or res.get("raised"):
+            ctx.count("sim_nominal_unsolved")
+            continue
+        x0n = spec["states"][0]["name"]
+        for i, o in enumerate(res["obs"]):
+            if abs(o["zextra"] - (2.0 * o[x0n] + 1.0)) > 1e-6 * (1 + abs(o[x0n])):
+                ctx.violation("nominals/sim-extra-variable", {"spec": spec, "step": i, "zextra": o["zextra"], x0n: o[x0n]},
+                              what="simulation: extra variable with nominal %s reads %r, the model says %r" % (spec["extra_nominal"], o["zextra"], 2.0 * o[x0n] + 1.0))
+                break
+        for nm, want, got in res["setget"]:
+            if abs(want - got) > 1e-9:
+                ctx.violation("nominals/sim-get-set", {"spec": spec, "variable": nm, "set": want, "get": got},
+                              what="simulation: get_var after set_var(%s, %s) returns %s" % (nm, want, got))
+
+
+_run_core2 = run
+
+
+def run(ctx):  # noqa: F811
+    _run_core2(ctx)
+    if not os.environ.get("VERIF_REPLAY"):
+        accessor_scaling(ctx)
+        sim_nominal_cases(ctx)
